@@ -119,6 +119,11 @@ S16 == <<128, FALSE, 0>>
 Sid(id, gen) == <<id % 256, id \div 256, 0, IF gen THEN 64 ELSE 0>>
 L16 == {<<"nmt", 1>>, <<"nmt", 2>>, <<"nmt", 128>>, <<"tick">>, <<"sync", 128>>, <<"sync", 129>>, <<"rpdo", 517, D1>>}
        \cup {<<"cfg", "sid", TRUE, 1, Sid(i, g)>> : i \in {128, 129}, g \in {TRUE, FALSE}} \cup {<<"cfg", "scyc", TRUE, 1, us>> : us \in {0, 500, 1000, 2000, 3000}}
+\* C16B: the node comes up with the generate bit of 1005h set and a period the timer cannot resolve (1006h = 0): no production until a
+\* usable period is WRITTEN - that write must start it
+S16B == <<128, TRUE, 0>>
+L16B == {<<"nmt", 1>>, <<"nmt", 128>>, <<"tick">>, <<"reset", 130>>, <<"sync", 128>>} \cup {<<"cfg", "scyc", TRUE, 1, us>> : us \in {0, 500, 2000, 3000}}
+        \cup {<<"cfg", "sid", TRUE, 1, Sid(128, g)>> : g \in {TRUE, FALSE}}
 P16 == << <<"rdcfg", "sid", TRUE, 1>>, <<"rdcfg", "scyc", TRUE, 1>>, <<"tick">>, <<"tick">>, <<"tick">>, <<"tick">>, <<"sync", 128>>, <<"sync", 129>>, <<"cfg", "scyc", TRUE, 1, 2000>>, <<"cfg", "sid", TRUE, 1, Sid(128, TRUE)>>,
           <<"tick">>, <<"tick">>, <<"tick">>, <<"tick">>, <<"rdcfg", "sid", TRUE, 1>> >>
 ==============================================================================
